@@ -102,14 +102,21 @@ def checkGrp : P String := do
       -- C05 spec, evaluated on the specification's partition (independent of the implementation's grouping)
       -- no column arguments: every non-key column (for a frame without rows there is no cell to cover,
       -- and the implementation, which learns the names from the grouped rows, emits only GroupKey)
-      let useCols := if cols.isEmpty && kind != "count" then
-          (if rows.isEmpty then [] else f.keys.filter (fun k => list || k != keys.headD []))
-        else cols
-      let dup := useCols.any (fun c => useCols.count c > 1) || useCols.contains sGroupKey
+      -- no column arguments: the property demands every NON-KEY column (for a frame without rows there is no cell to
+      -- cover, and the implementation, which learns the names from the grouped rows, emits only GroupKey); whether
+      -- the key columns themselves are covered as well is not stated, so they are allowed either way
+      let noArg := cols.isEmpty && kind != "count"
+      let required := if noArg then (if rows.isEmpty then [] else f.keys.filter (fun k => !keys.contains k)) else cols
+      let optional := if noArg then f.keys.filter (fun k => keys.contains k) else []
+      let mustErr := if noArg then required.contains sGroupKey
+        else cols.any (fun c => cols.count c > 1) || cols.contains sGroupKey
+      let mayErr := mustErr || optional.contains sGroupKey
       match res with
       | some x =>
         nAgg := nAgg + 1
         let gk := ((x.get? sGroupKey).map (·.data)).getD []
+        let present := x.keys.filter (fun c => c != sGroupKey)
+        let useCols := if noArg then present else cols
         let okShape := x.rect? && gk.length == specGroups.length &&
           (list || (gk.zip specGroups).all (fun (a, s) => match s.1 with | [k] => a == k | _ => false))
         let okCols := useCols.all (fun c =>
@@ -120,9 +127,11 @@ def checkGrp : P String := do
             | "sum" => cellApproxS sc v (.flt false (Spec.groupSumSpec s.2 c))
             | "mean" => cellApproxS sc v (.flt false (Spec.groupMeanSpec s.2 c))
             | _ => v == .int .int s.2.length))
-        let okNames := x.keys == Spec.sortedUnion [sGroupKey] useCols
-        if !(okShape && okCols && okNames) || dup then c05 := firstFail c05 s!"fail:{kind}"
-      | none => if !dup then c05 := firstFail c05 s!"fail:{kind}-error"
+        let okNames := if noArg then
+            required.all (fun c => present.contains c) && present.all (fun c => required.contains c || optional.contains c)
+          else x.keys == Spec.sortedUnion [sGroupKey] cols
+        if !(okShape && okCols && okNames) || mustErr then c05 := firstFail c05 s!"fail:{kind}"
+      | none => if !mayErr then c05 := firstFail c05 s!"fail:{kind}-error"
   -- conservation: the group sums of a numeric column add up to the frame-level Sum
   expect "FS"
   expect "R"
